@@ -152,6 +152,46 @@ def families():
         out.append("> a " + i.replace("\n", "\n> ") + " b\n> #b\n")
         out.append("- a " + i.replace("\n", "\n  ") + " b\n  #b\n")
     out.append("[r]: /u\n")
+    # code spans: delimiter run x padding x content with embedded backticks (MD038)
+    for dl in ("`", "``"):
+        for lp in ("", " ", "  ", "   "):
+            for rp in ("", " ", "  ", "   "):
+                for c in (("a", "a b") if dl == "`" else ("a", "`a`", "a`b", "`a", "a`")):
+                    out.append("Use " + dl + lp + c + rp + dl + " to build.\n")
+        out.append("Run " + dl + "  `make" + dl + " first and " + dl + "make test" + dl + " afterwards\n")
+    # emphasis markers with inner spaces (MD037)
+    for m in ("*", "**", "_", "__"):
+        for lp in ("", " ", "  "):
+            for rp in ("", " ", "  "):
+                for c in ("a", "a b"):
+                    out.append("x " + m + lp + c + rp + m + " y\n")
+    # link / image text padding (MD039)
+    for bang in ("", "!"):
+        for lp in ("", " ", "  "):
+            for rp in ("", " ", "  "):
+                out.append("see " + bang + "[" + lp + "a" + rp + "](/u) end\n")
+    # ATX spacing and indentation (MD018-MD023)
+    for h in ("#", "##"):
+        for sp in ("", " ", "  ", "   ", "\t"):
+            out.append(h + sp + "a\n")
+            for csp in ("", " ", "  ", "   "):
+                out.append(h + sp + "a" + csp + h + "\n")
+        for ind in (" ", "  ", "   "):
+            out.append(ind + h + " a\n")
+    # nested list indentation (MD005 / MD007)
+    for m1, w in (("-", 2), ("1.", 3)):
+        for ind in range(0, 7):
+            out.append(f"{m1} a\n" + " " * ind + f"{m1} b\n")
+            out.append(f"{m1} a\n" + " " * w + f"{m1} b\n" + " " * ind + f"{m1} c\n")
+    # block-quote marker spacing (MD027)
+    for sp in ("", " ", "  ", "   "):
+        for c in ("a", "# h", "- a", "```"):
+            out.append(">" + sp + c + "\n>" + sp + "b\n")
+    # list marker spacing (MD030)
+    for m in ("-", "1."):
+        for sp in (" ", "  ", "   ", "    "):
+            out.append(m + sp + "a\n" + m + sp + "b\n")
+            out.append(m + sp + "a\n\n" + " " * (len(m) + len(sp)) + "p\n" + m + sp + "b\n")
     return list(dict.fromkeys(out))
 
 
